@@ -107,6 +107,9 @@ pub struct Sim {
     pub fail: Option<Fail>,
     pub locked: Vec<bool>,
     pub prespawned: Vec<Vec<Option<Entity>>>,
+    /// per client: server entities for which a mapping was sent (the client may hold such a mapping although the entity
+    /// is not, or never was, shown to it: mappings travel independently of visibility)
+    pub premapped: Vec<BTreeSet<Entity>>,
     pub sframes: u64,
     pub seq: u32,
     pub semits: Vec<SEmit>,
@@ -207,6 +210,7 @@ impl Sim {
             fail: None,
             locked: vec![false; slots],
             prespawned: vec![vec![None; slots]; n],
+            premapped: vec![BTreeSet::new(); n],
             sframes: 0,
             seq: 0,
             semits: Vec::new(),
@@ -564,6 +568,7 @@ impl Sim {
         for p in self.prespawned[i].iter_mut() {
             *p = None;
         }
+        self.premapped[i].clear();
         self.last_u[i] = 0;
         self.last_confirm[i].clear();
         self.snap_struct[i].clear();
@@ -661,6 +666,14 @@ impl Sim {
                 }
                 self.marked[slot] = on;
                 self.op();
+            }
+            Step::Remark { slot } => {
+                if slot >= nslots || !self.marked[slot] {
+                    return;
+                }
+                let Some(e) = self.slots[slot] else { return };
+                self.server.world_mut().entity_mut(e).insert(Replicated);
+                self.flags.insert("marker_inserted_again");
             }
             Step::Insert { slot, k } => {
                 if slot >= nslots {
@@ -782,7 +795,7 @@ impl Sim {
                 self.parents[slot] = None;
                 self.op();
             }
-            Step::PreSpawn { client, slot, kill, gap } => {
+            Step::PreSpawn { client, slot, kill, gap, early } => {
                 if !self.cfg.prespawn || client >= nclients || slot >= nslots || !self.authorized(client) {
                     return;
                 }
@@ -790,15 +803,23 @@ impl Sim {
                     return;
                 }
                 let local = self.clients[client].app.world_mut().spawn_empty().id();
-                let e = self.server.world_mut().spawn(Replicated).id();
+                let id = self.clients[client].id;
+                let e = if early && self.cfg.vis != 2 {
+                    // not replicated yet: a later `Marker{on}` makes it visible
+                    self.server.world_mut().spawn_empty().id()
+                } else {
+                    self.server.world_mut().spawn(Replicated).id()
+                };
                 self.insert_k(e, K::A);
                 self.slots[slot] = Some(e);
-                self.marked[slot] = true;
+                self.marked[slot] = !(early && self.cfg.vis != 2);
                 self.locked[slot] = true;
-                let id = self.clients[client].id;
-                if self.cfg.vis == 2 {
+                if self.cfg.vis == 2 && !early {
                     self.server.world_mut().get_mut::<ClientVisibility>(id).unwrap().set_visibility(e, true);
                     self.vis[client].insert(slot);
+                }
+                if early {
+                    self.flags.insert("prespawn_mapping_before_first_visibility");
                 }
                 self.op();
                 // (a tick-less frame is only possible once the first running frame has incremented the tick)
@@ -808,6 +829,7 @@ impl Sim {
                     self.server_frame(false);
                 }
                 self.server.world_mut().get_mut::<ClientEntityMap>(id).unwrap().insert(e, local);
+                self.premapped[client].insert(e);
                 if kill {
                     self.clients[client].app.world_mut().entity_mut(local).despawn();
                     self.flags.insert("prespawn_killed");
